@@ -472,6 +472,9 @@ class Builder:
             return {'==': operator.eq, '!=': operator.ne, '<': operator.lt, '>': operator.gt,
                     '<=': operator.le, '>=': operator.ge}[r[2]](lhs, rhs)
         if kind == 'Regex':
+            if len(r) > 2 and r[2]:
+                import re as _re
+                return G.Regex(r[1], func={'search': _re.search, 'match': _re.match, 'fullmatch': _re.fullmatch}[r[2]])
             return G.Regex(r[1])
         if kind == 'Optional':
             if len(r) > 2:
